@@ -339,26 +339,38 @@ func c13Concurrency(w *World, cfg EngCfg) *Violation {
 		close(gate)
 		return violf("first Merge neither reached CreateFile nor returned within 30s")
 	}
-	var err2 error
-	done2 := make(chan struct{})
-	go func() { _, err2 = eng.Merge(context.Background()); close(done2) }()
-	early := false
-	select {
-	case <-done2:
-		early = true
-	case <-time.After(300 * time.Millisecond):
+	// While the first Merge is held inside CreateFile, several more Merge calls
+	// are made one after the other (a rejected caller must not disturb the
+	// single-flight state for the next one); callers that do not come back
+	// within 300 ms are left running and collected after the first finished.
+	const extraCalls = 3
+	errs := make([]error, extraCalls)
+	dones := make([]chan struct{}, extraCalls)
+	early := make([]bool, extraCalls)
+	for i := 0; i < extraCalls; i++ {
+		dones[i] = make(chan struct{})
+		go func(i int) { _, errs[i] = eng.Merge(context.Background()); close(dones[i]) }(i)
+		select {
+		case <-dones[i]:
+			early[i] = true
+		case <-time.After(300 * time.Millisecond):
+		}
 	}
 	close(gate)
 	<-done1
 	close(gate2)
-	select {
-	case <-done2:
-	case <-time.After(60 * time.Second):
-		return violf("second (concurrent) Merge did not return within 60s after the first finished")
+	for i := 0; i < extraCalls; i++ {
+		select {
+		case <-dones[i]:
+		case <-time.After(60 * time.Second):
+			return violf("concurrent Merge call #%d did not return within 60s after the first finished", i+2)
+		}
 	}
 	Ev.Class("concurrent-merge-checked")
-	if !errors.Is(err2, bs.ErrMergeInProgress) {
-		return violf("a Merge called while another Merge was inside CreateFile returned %v instead of ErrMergeInProgress (returned before the first finished: %v)", err2, early)
+	for i := 0; i < extraCalls; i++ {
+		if !errors.Is(errs[i], bs.ErrMergeInProgress) {
+			return violf("Merge call #%d, made while the first Merge was inside CreateFile (after %d earlier concurrent calls had been refused), returned %v instead of ErrMergeInProgress (returned before the first finished: %v)", i+2, i, errs[i], early[i])
+		}
 	}
 	if err1 != nil {
 		return violf("the first Merge failed on healthy stores: %v", err1)
@@ -465,7 +477,7 @@ func runC13(c c13Case) *Violation {
 
 func TestC13(t *testing.T) {
 	Ev.Level = "fault_enumeration"
-	Ev.Rule = "case = generated population (several engine configurations, partitions, optionally external-writer files) in a cloneable in-memory DataStore + MemoryMetaStore, and a merge configuration. Merge is run fault-free on a copy to number every store call (iterator start/yield, CreateFile, OpenFile, Read, Seek, Write, Close, Abort, Update, TombstoneFile); then ONCE PER POSITION on a fresh copy with a failure there (before the call; Write also short-write; Close also publish-then-fail). Oracle per run: row multiset and bytes preserved; if MetaStore.Update did not succeed: same pointers, source files byte-identical, no source tombstoned, no ErrPostCommitCleanup, and nil is not returned when the fault-free run merges; if it succeeded: pointers = before - deletes + writes, every committed output's Close succeeded before the Update, sources tombstoned only after it, error is nil or wraps ErrPostCommitCleanup (with stats) exactly when a source tombstone failed. Plus per population: a Merge called while another is gated inside CreateFile returns ErrMergeInProgress. Non-trivial: the fault fired in the second or a later group, or after the Update; distinct by hash(case, plan)."
+	Ev.Rule = "case = generated population (several engine configurations, partitions, optionally external-writer files) in a cloneable in-memory DataStore + MemoryMetaStore, and a merge configuration. Merge is run fault-free on a copy to number every store call (iterator start/yield, CreateFile, OpenFile, Read, Seek, Write, Close, Abort, Update, TombstoneFile); then ONCE PER POSITION on a fresh copy with a failure there (before the call; Write also short-write; Close also publish-then-fail). Oracle per run: row multiset and bytes preserved; if MetaStore.Update did not succeed: same pointers, source files byte-identical, no source tombstoned, no ErrPostCommitCleanup, and nil is not returned when the fault-free run merges; if it succeeded: pointers = before - deletes + writes, every committed output's Close succeeded before the Update, sources tombstoned only after it, error is nil or wraps ErrPostCommitCleanup (with stats) exactly when a source tombstone failed. Plus per population: three further Merge calls made one after the other while the first is gated inside CreateFile all return ErrMergeInProgress. Non-trivial: the fault fired in the second or a later group, or after the Update; distinct by hash(case, plan)."
 	Ev.Assumptions = []string{"MemoryMetaStore.Update is atomic", "faults are one-shot"}
 	runChecks(t, "faults", 12, 300, genC13(), runC13)
 }
